@@ -215,8 +215,12 @@ func VerifC02EntryPoints() {
 	} else {
 		same("", err, "ParseAndFRender")
 	}
-	// a fresh parse and a fresh engine
-	tpl2, _ := e.ParseTemplate([]byte(src))
+	// a fresh parse and a fresh engine; the caller's source buffer is its own to reuse afterwards
+	buf := []byte(src)
+	tpl2, _ := e.ParseTemplate(buf)
+	for i := range buf {
+		buf[i] = '#'
+	}
 	out, err = tpl2.RenderString(b)
 	same(out, errOrNil(err), "reparse")
 	out, err = NewEngine().ParseAndRenderString(src, b)
